@@ -192,6 +192,8 @@ type Req struct {
 	// PUT: the request context is cancelled after this many body bytes while
 	// the body is still delivered completely (the client went away late).
 	CancelAfter *int `json:"cancel_after,omitempty"`
+	// the body is sent with Transfer-Encoding: chunked instead of a Content-Length (the server sees ContentLength -1)
+	Chunked bool `json:"chunked,omitempty"`
 }
 
 func (r Req) String() string {
@@ -221,6 +223,9 @@ func (r Req) String() string {
 		} else {
 			fmt.Fprintf(&b, " body=%q", r.Body)
 		}
+	}
+	if r.Chunked {
+		b.WriteString(" chunked")
 	}
 	if r.FailAfter != nil {
 		fmt.Fprintf(&b, " fail@%d(%s)", *r.FailAfter, r.FailKind)
